@@ -1,9 +1,10 @@
 (* C18 -- joining segments conserves the input.  PARTIAL: proved for the hand model JoinSeg.v (exact end-point
    matching; tied to the implementation by correspondence): every input segment is used exactly once by the returned
-   chains, for every order and orientation of the input.  Maximality under a non-transitive tolerance and the outline
-   extraction (joined_intersected_boundary, join_coplanar_faces) are validated by the harness. *)
+   chains, and the result is maximal - no edge of a later chain (nor any unused segment while a chain is grown) touches an
+   end of an earlier chain - for every order and orientation of the input.  Maximality under a non-transitive tolerance
+   and the outline extraction (joined_intersected_boundary, join_coplanar_faces) are validated by the harness. *)
 From Coq Require Import ZArith List Bool.
-From LBG Require Import JoinSeg.
+From LBG Require Import JoinSeg C18_join.
 Import ListNotations.
 Open Scope Z_scope.
 
@@ -11,6 +12,16 @@ Theorem C18_every_segment_used_exactly_once : forall segs k, (2 <= length segs)%
   cnt k (all_edges (group_vertices segs)) = cnt k segs.
 Proof. exact group_uses_each_segment_once. Qed.
 Print Assumptions C18_every_segment_used_exactly_once.
+
+Theorem C18_chains_are_maximal : forall segs, (2 <= length segs)%nat -> ordered (group_vertices segs).
+Proof. exact group_vertices_maximal. Qed.
+Print Assumptions C18_chains_are_maximal.
+
+Theorem C18_a_grown_chain_cannot_be_extended : forall fuel poly others, poly <> [] -> (length others <= fuel)%nat ->
+  let '(p, rest) := build fuel poly others in
+  p <> [] /\ (forall s, In s rest -> touches_end p s = false) /\ (forall s, In s rest -> In s others).
+Proof. exact build_maximal. Qed.
+Print Assumptions C18_a_grown_chain_cannot_be_extended.
 
 (* a shuffled, partly flipped square plus a lone segment: one closed chain of 5 vertices and one segment *)
 Example C18_nonvacuous :
